@@ -28,6 +28,10 @@
     `release tx` = "for every key listed under `tx`: remove the lock iff it still belongs to `tx`"
     (the ownership check is what protects the new holder); `releaseNoOwnerCheck` /
     `stepNoOwnerCheck` are that loop without the check (NOT the code; regression witness only);
+    `cleanup_expired_locks` (`cleanupLocks`) removes every expired lock and, per removed lock, exactly
+    that key from its owner's list — a transaction's locks have different ages, so its younger locks
+    stay in the table AND in the list; `cleanupLocksDropList` / `stepDropList` drop the owner's whole
+    list instead (NOT the code; regression witness only);
   * `apply_undo_entry` (c322e794) re-adds / swaps hash and b-tree entries only for indexes that
     exist at rollback time; the undo of an insert removes its entries unconditionally;
   * the code before those two fixes is kept as `txInsertOld`, `applyUndoTOld`, `rollbackOld`,
@@ -926,5 +930,40 @@ def runAddBeforeRemove (s : State) (ops : List Op) : State := ops.foldl (fun s o
 def runResAddBeforeRemove (s : State) : List Op → List Res
   | [] => []
   | op :: ops => (stepAddBeforeRemove s op).2 :: runResAddBeforeRemove (stepAddBeforeRemove s op).1 ops
+
+/-! ## the lock sweep that forgets the owner's WHOLE key list (NOT the code; regression witness only)
+
+  `RowLockManager::cleanup_expired` removes every expired lock from the lock table and, per removed lock,
+  exactly that key from the key list of the lock's owner (`tx_keys.retain(|k| k != key)`; `cleanupLocks`).
+  The variant below does `tx_locks.remove(tx_id)` instead: as soon as ONE lock of a transaction has
+  expired, the transaction's whole key list goes ("an owner that timed out never calls release()").  A
+  transaction takes its locks statement by statement, so its locks have different ages: a younger lock
+  of the same owner is still in the lock table, is still the `row_lock_holder` answer, but is listed
+  nowhere — `release` at the owner's commit / rollback / timeout walks the (now missing) list and leaves
+  it behind.  Kept so that `sweep_forgetting_owner_list_leaks_lock_witness` can show that
+  `every_lock_is_listed_under_its_owner` / `no_lock_outlives_its_transaction` depend on the per-key removal. -/
+
+def cleanupLocksDropList (s : State) : State × Res :=
+  let n := ((allKeys s).filter fun k => lockExpiredAt s k.1 k.2).length
+  ({ s with
+     locks := fun t i => if lockExpiredAt s t i then none else s.locks t i
+     -- `for (key, tx_id) in expired { locks.remove(key); tx_locks.remove(tx_id) }`
+     txLocks := fun tx =>
+       if (allKeys s).any (fun k =>
+           match s.locks k.1 k.2 with
+           | some l => l.expired s.now s.lockTimeout && l.tx == tx
+           | none => false)
+       then [] else s.txLocks tx }, .okN n)
+
+def stepDropList (s : State) (op : Op) : State × Res :=
+  match op with
+  | .cleanupLocks => cleanupLocksDropList s
+  | op => step s op
+
+def runDropList (s : State) (ops : List Op) : State := ops.foldl (fun s op => (stepDropList s op).1) s
+
+def runResDropList (s : State) : List Op → List Res
+  | [] => []
+  | op :: ops => (stepDropList s op).2 :: runResDropList (stepDropList s op).1 ops
 
 end Neumann.RelTx
